@@ -158,6 +158,7 @@ class Job:
         ctext = open(hc).read()
         self.assert_ids = sorted(set(re.findall(r'VP_ASSERT\("([^"]+)"', ctext)))
         self.cover_ids = sorted(set(re.findall(r'VP_COVER\("([^"]+)"', ctext)))
+        self.resolve_loops()
         self.t_build = time.time() - t0
         return hc
 
@@ -165,13 +166,34 @@ class Job:
         base = ['rt_cbmc', 'cxxabi', 'vecgrow'] + self.models
         return [os.path.join(VERIF, 'models', m + '.c') for m in dict.fromkeys(base)]
 
+    def resolve_loops(self):
+        """unwindset keys may be CBMC loop ids (f.0) or patterns 'substring' / 'substring@line' matched against the
+        function name (and source line) of every loop reported by cbmc --show-loops"""
+        pats = {k: v for k, v in self.unwindset.items() if not re.search(r'\.\d+$', k)}
+        self.loops_resolved = {k: v for k, v in self.unwindset.items() if k not in pats}
+        if not pats:
+            return
+        cmd = ['cbmc', '-I', os.path.join(VERIF, 'vp'), '-I', self.dir, '-I', os.path.join(VERIF, 'models'),
+               os.path.join(self.dir, 'h.c')] + self.model_files() + ['--function', 'vp_entry', '--drop-unused-functions', '--show-loops']
+        rc, out, err, _ = run(cmd, cwd=self.dir, timeout=120)
+        loops = re.findall(r'Loop (\S+):\n\s+file (\S+) line (\d+) function (\S+)', out)
+        for pat, n in pats.items():
+            sub, _, line = pat.partition('@')
+            hit = False
+            for lid, f, ln, fn in loops:
+                if sub in fn and (not line or line == ln):
+                    self.loops_resolved[lid] = max(n, self.loops_resolved.get(lid, 0))
+                    hit = True
+            if not hit:
+                self.log.append('unwindset pattern %s matched no loop' % pat)
+
     def cbmc_cmd(self, witness=False, trace=True):
         cmd = ['cbmc', '-I', os.path.join(VERIF, 'vp'), '-I', self.dir, '-I', os.path.join(VERIF, 'models'),
                os.path.join(self.dir, 'h.c')] + self.model_files()
         cmd += [c if c != '12' or not self.objbits else str(self.objbits) for c in CBMC_BASE]
         cmd += ['--unwind', str(self.unwind)]
-        if self.unwindset:
-            cmd += ['--unwindset', ','.join('%s:%d' % kv for kv in sorted(self.unwindset.items()))]
+        if getattr(self, 'loops_resolved', None):
+            cmd += ['--unwindset', ','.join('%s:%d' % kv for kv in sorted(self.loops_resolved.items()))]
         cmd += SOLVERS[self.solver]
         cmd += self.extra
         if witness:
@@ -263,7 +285,21 @@ class Job:
         os.makedirs(d, exist_ok=True)
         srcs = [self.harness_path(), os.path.join(VERIF, 'vp', 'rt_replay.cpp')] + \
                [os.path.join(REPO, 'src', l) for l in self.link]
-        rc, out, err, dt = run(['g++'] + NATIVE_FLAGS + defs_flags(self.defs) + srcs + ['-o', exe, '-lpthread'])
+        base = ['g++'] + NATIVE_FLAGS + defs_flags(self.defs) + srcs + ['-o', exe, '-lpthread', '-Wl,--no-demangle']
+        rc, out, err, dt = run(base)
+        syms = set()
+        rounds = 0
+        while rc != 0 and 'undefined reference' in err and rounds < 6:
+            # references from code that no harness path reaches (e.g. ProtocolHandler::create -> NetworkTransport):
+            # satisfied by trapping stubs, so that reaching one natively is loud
+            rounds += 1
+            syms |= set(re.findall(r"undefined reference to `([A-Za-z0-9_$.]+)'", err))
+            stub = os.path.join(d, 'unresolved_stubs.c')
+            with open(stub, 'w') as f:
+                for sy in sorted(syms):
+                    f.write('void %s(void) { __builtin_trap(); }\n' % sy)
+            run(['gcc', '-c', '-fsanitize=address', stub, '-o', stub + '.o'])
+            rc, out, err, dt = run(base + [stub + '.o', '-no-pie'])
         if rc != 0:
             raise PipelineError('native build failed for %s:\n%s' % (self.name, err[-3000:]))
         open(lock, 'w').write('ok')
